@@ -1,6 +1,9 @@
 package runtime
 
-import "fmt"
+import (
+	"fmt"
+	"math"
+)
 
 // RawEqual returns two values.  The second one is true if raw equality makes
 // sense for x and y.  The first one returns whether x and y are raw equal.
@@ -129,36 +132,75 @@ func Lt(t *Thread, x, y Value) (bool, error) {
 	return false, compareError(x, y)
 }
 
+// The floats f such that minInt64AsFloat <= f < maxInt64AsFloatPlusOne are
+// exactly those whose integral part fits an int64.  Converting a float outside
+// of this range to int64 is undefined, so it must be dealt with separately.
+const (
+	minInt64AsFloat        = -(1 << 63) // -2^63 is exactly math.MinInt64
+	maxInt64AsFloatPlusOne = 1 << 63    // 2^63 is math.MaxInt64 + 1
+)
+
+// The four functions below compare an integer and a float exactly, i.e.
+// according to their mathematical values.  Converting the integer to a float
+// would not do as that may round it.  Instead the float is rounded to an
+// integer in the direction that preserves the comparison, if that is possible,
+// otherwise the float is either greater than all integers, smaller than all
+// integers, or NaN (which compares false with everything).
+
+// ltIntAndFloat returns true if n < f.
 func ltIntAndFloat(n int64, f float64) bool {
-	nf := int64(f)
-	if float64(nf) == f {
-		return n < nf
+	switch {
+	case f >= maxInt64AsFloatPlusOne:
+		return true
+	case f >= minInt64AsFloat:
+		// n < f <=> n < ceil(f)
+		return n < int64(math.Ceil(f))
+	default:
+		// f is less than all integers or NaN
+		return false
 	}
-	return float64(n) < f
 }
 
+// ltFloatAndInt returns true if f < n.
 func ltFloatAndInt(f float64, n int64) bool {
-	nf := int64(f)
-	if float64(nf) == f {
-		return nf < n
+	switch {
+	case f >= maxInt64AsFloatPlusOne:
+		return false
+	case f >= minInt64AsFloat:
+		// f < n <=> floor(f) < n
+		return int64(math.Floor(f)) < n
+	default:
+		// f is less than all integers or NaN
+		return f < minInt64AsFloat
 	}
-	return f < float64(n)
 }
 
+// leIntAndFloat returns true if n <= f.
 func leIntAndFloat(n int64, f float64) bool {
-	nf := int64(f)
-	if float64(nf) == f {
-		return n <= nf
+	switch {
+	case f >= maxInt64AsFloatPlusOne:
+		return true
+	case f >= minInt64AsFloat:
+		// n <= f <=> n <= floor(f)
+		return n <= int64(math.Floor(f))
+	default:
+		// f is less than all integers or NaN
+		return false
 	}
-	return float64(n) <= f
 }
 
+// leFloatAndInt returns true if f <= n.
 func leFloatAndInt(f float64, n int64) bool {
-	nf := int64(f)
-	if float64(nf) == f {
-		return nf <= n
+	switch {
+	case f >= maxInt64AsFloatPlusOne:
+		return false
+	case f >= minInt64AsFloat:
+		// f <= n <=> ceil(f) <= n
+		return int64(math.Ceil(f)) <= n
+	default:
+		// f is less than all integers or NaN
+		return f < minInt64AsFloat
 	}
-	return f <= float64(n)
 }
 
 func le(t *Thread, x, y Value) (bool, error) {
